@@ -5,10 +5,13 @@
  *
  */
 
+#include <atomic>
+
 namespace opensmt {
 
 namespace {
-    bool globalStopFlag{false};
+    // written by the requesting thread, polled by the solving threads
+    std::atomic<bool> globalStopFlag{false};
 }
 
 void notifyGlobalStop() {
